@@ -167,17 +167,20 @@ static uint64_t huge_walk(const struct cstl_bintree_node *n, const struct cstl_b
 
 static void huge_heap(uint64_t nsel, uint64_t seed)
 {
-    static const size_t bases[] = { 255, 256, 257, 4095, 4097, 65535, 65536, 65537, 70000, 131073, 262147, 393300, 524290 };
-    size_t n = bases[nsel % 13], extra = n / 4, np = n + extra, i, live = 0, pushed = 0;
+    static const size_t bases[] = { 255, 256, 257, 4095, 4097, 65535, 65536, 65537, 70000, 131073, 262147, 393300, 524290,
+                                    2097160 /* 2^21+8 */, 4194310 /* 2^22+6 */ };
+    size_t n = bases[nsel >> 60 == 15 ? 13 + (nsel & 1) : nsel % 13], extra = n / 4, np = n + extra, i, live = 0, pushed = 0;
     struct helem *pool = malloc(np * sizeof *pool);
     uint64_t x = seed; int prev; static void *ret;
     int phase;
     if (!pool) sim_harness_bug("heap: no memory for a huge heap");
     hkind[0] = 0; cur_h = 0;
     cstl_heap_init(&hp[0], cmp_prio, NULL, hoff(0));
-    g_cur_ctx = n > 60000 ? "size-above-2^16" : n > 4000 ? "size-above-2^12" : "size-above-2^8";
+    g_cur_ctx = n > 2000000 ? "size-above-2^21" : n > 60000 ? "size-above-2^16" : n > 4000 ? "size-above-2^12" : "size-above-2^8";
+    if (n > 2000000) { sim_watchdog(100); PROBE("huge_heap_2^21"); }
     for (phase = 0; phase < 4; phase++) {
         size_t cnt = phase == 0 ? n : phase == 1 ? n / 2 : phase == 2 ? extra : live;
+        if (n > 2000000 && phase > 0) cnt = 5000;     /* the giants only work around their size: emptying them would take a minute */
         prev = 1 << 30;
         for (i = 0; i < cnt; i++) {
             if (phase == 0 || phase == 2) {
@@ -199,8 +202,10 @@ static void huge_heap(uint64_t nsel, uint64_t seed)
         if (cstl_heap_size(&hp[0]) != live) VIOL(0, "size", "huge heap reports size %zu, reference has %zu", cstl_heap_size(&hp[0]), live);
         if (huge_walk(hp[0].bt.root, NULL, 1, live, 0, pool, np) != live) VIOL(0, "reachable_count", "huge heap: reachable nodes do not match size %zu", live);
     }
-    TRY(ret = cstl_heap_pop(&hp[0]));
-    if (ret != NULL) VIOL(0, "pop_empty", "pop on the emptied huge heap returned non-NULL");
+    if (n <= 2000000) {
+        TRY(ret = cstl_heap_pop(&hp[0]));
+        if (ret != NULL) VIOL(0, "pop_empty", "pop on the emptied huge heap returned non-NULL");
+    }
     free(pool);
     PROBE(n > 60000 ? "huge_heap_2^16" : "huge_heap");
     EVT("huge", n, 0, 0);
@@ -338,10 +343,11 @@ static void h_gen(prng_t *r, int mode, plan_t *p)
     int nops = longrun ? 600 + (int)prng_below(r, 1800) : small ? 2 + (int)prng_below(r, 8) : 10 + (int)prng_below(r, 70);
     unsigned w_clear = mode == 15 ? 10 : 1;
     unsigned push_w;
-    if (mode == 107) {
+    if (mode == 107 || mode == 108) {
         op_t *o = plan_add(p, H_HUGE);
         p->cfg[CF_NH] = 1; p->cfg[CF_PRIOS] = 1; p->cfg[CF_JUNK] = 1 + prng_below(r, 254); p->cfg[CF_MAXN] = 4;
-        o->a[1] = prng_next(r); o->a[2] = prng_next(r);
+        o->a[1] = prng_next(r) >> 4; o->a[2] = prng_next(r);
+        if (mode == 108) o->a[1] = ((uint64_t)15 << 60) | (g_gen_index & 1);      /* the two heaps of more than 2^21 / 2^22 elements, in turn */
         return;
     }
     push_w = longrun ? 55 + (unsigned)prng_below(r, 25) : 35 + (unsigned)prng_below(r, 30);    /* per-run push/pop balance */
